@@ -83,6 +83,7 @@ theorem hereDocFd_world (o : Oracle W) (w : W) (t : FdTable) (content : List Nat
       (o.fill (o.deny (o.tmpfile w).1).1 (o.tmpfile w).2 content).2 = true ∧
       (hereDocFd o w t content).t.get fd0 = some ⟨(o.tmpfile w).2, false⟩ := by
   unfold hereDocFd allocLowest at h ⊢
+  simp only [hereDocCloexec_false, hereDocClosesOnFailure_true, if_true] at h ⊢
   cases ha : t.openFdGe 0 { ofd := (o.tmpfile w).2, cloexec := false } (o.deny (o.tmpfile w).1).2 with
   | none => simp only [ha] at h; cases h
   | some p =>
